@@ -3,6 +3,7 @@ package common
 import (
 	"fmt"
 
+	"github.com/protolambda/ztyp/bitfields"
 	"github.com/protolambda/ztyp/codec"
 	"github.com/protolambda/ztyp/conv"
 	"github.com/protolambda/ztyp/tree"
@@ -12,12 +13,10 @@ import (
 type JustificationBits [1]byte
 
 func (b *JustificationBits) Deserialize(dr *codec.DecodingReader) error {
-	v, err := dr.ReadByte()
-	if err != nil {
+	if _, err := dr.Read(b[:]); err != nil {
 		return err
 	}
-	b[0] = v
-	return nil
+	return bitfields.BitvectorCheck(b[:], JUSTIFICATION_BITS_LENGTH)
 }
 
 func (a JustificationBits) Serialize(w *codec.EncodingWriter) error {
